@@ -110,7 +110,13 @@ func (d *PathDecoder) decodeReferenceTargetsForBody(body hcl.Body, parentBlock *
 
 	content := ast.DecodeBody(body, bodySchema)
 
-	for _, attr := range content.Attributes {
+	attrNames := make([]string, 0, len(content.Attributes))
+	for name := range content.Attributes {
+		attrNames = append(attrNames, name)
+	}
+	sort.Strings(attrNames)
+	for _, attrName := range attrNames {
+		attr := content.Attributes[attrName]
 		if bodySchema.Extensions != nil {
 			if bodySchema.Extensions.Count && attr.Name == "count" && content.RangePtr != nil {
 				refs = append(refs, countIndexReferenceTarget(attr, *content.RangePtr))
@@ -248,14 +254,14 @@ func (d *PathDecoder) decodeReferenceTargetsForBody(body hcl.Body, parentBlock *
 			})
 		}
 
-		sort.Sort(bodyRef.NestedTargets)
+		sort.Stable(bodyRef.NestedTargets)
 	}
 
 	for _, tb := range bodySchema.TargetableAs {
 		refs = append(refs, decodeTargetableBody(body, parentBlock, tb))
 	}
 
-	sort.Sort(refs)
+	sort.Stable(refs)
 
 	return refs
 }
@@ -495,7 +501,7 @@ func (d *PathDecoder) collectInferredReferenceTargetsForBody(addr lang.Address, 
 		blockRef.NestedTargets = d.collectInferredReferenceTargetsForBody(
 			blockAddr, bAddrSchema, blk.Body, bCollection.Schema.Body, selfRefBodyRangePtr, blockRef.LocalAddr)
 
-		sort.Sort(blockRef.NestedTargets)
+		sort.Stable(blockRef.NestedTargets)
 		refs = append(refs, blockRef)
 	}
 
@@ -540,7 +546,7 @@ func (d *PathDecoder) collectInferredReferenceTargetsForBody(addr lang.Address, 
 			elemRef.NestedTargets = d.collectInferredReferenceTargetsForBody(
 				elemAddr, bAddrSchema, b.Body, bCollection.Schema.Body, selfRefBodyRangePtr, elemRef.LocalAddr)
 
-			sort.Sort(elemRef.NestedTargets)
+			sort.Stable(elemRef.NestedTargets)
 			blockRef.NestedTargets = append(blockRef.NestedTargets, elemRef)
 
 			if i == 0 {
@@ -558,7 +564,7 @@ func (d *PathDecoder) collectInferredReferenceTargetsForBody(addr lang.Address, 
 				}
 			}
 		}
-		sort.Sort(blockRef.NestedTargets)
+		sort.Stable(blockRef.NestedTargets)
 		refs = append(refs, blockRef)
 	}
 
@@ -641,7 +647,7 @@ func (d *PathDecoder) collectInferredReferenceTargetsForBody(addr lang.Address, 
 
 			elemRef.NestedTargets = d.collectInferredReferenceTargetsForBody(
 				elemAddr, bAddrSchema, b.Body, bCollection.Schema.Body, selfRefBodyRangePtr, elemRef.LocalAddr)
-			sort.Sort(elemRef.NestedTargets)
+			sort.Stable(elemRef.NestedTargets)
 			blockRef.NestedTargets = append(blockRef.NestedTargets, elemRef)
 
 			if i == 0 {
@@ -659,7 +665,7 @@ func (d *PathDecoder) collectInferredReferenceTargetsForBody(addr lang.Address, 
 				}
 			}
 		}
-		sort.Sort(blockRef.NestedTargets)
+		sort.Stable(blockRef.NestedTargets)
 		refs = append(refs, blockRef)
 	}
 
